@@ -102,7 +102,12 @@ def side_case(seed):
     try:
         if which == 'explicit':
             hs = [rng.uniform(0.01, 0.2) for _ in range(rng.randint(1, 3))]
-            sol = ode.explicit_euler(A, x0, hs, threshold=0, normalize=normalize, progress=False)
+            kw = {}
+            if rng.random() < 0.4 and order >= 1:
+                # a finite cap that every exact state fits in (the largest maximal TT rank): no effective truncation
+                kw['max_rank'] = max(max_ranks(dims))
+                desc['max_rank'] = kw['max_rank']
+            sol = ode.explicit_euler(A, x0, hs, threshold=0, normalize=normalize, progress=False, **kw)
             ref = [xv]
             for h in hs:
                 ref.append(normed((I + h * Am) @ ref[-1]))
@@ -113,6 +118,10 @@ def side_case(seed):
                 hs = [pool[0]] + [rng.choice(pool) for _ in range(rng.randint(2, 3))]
             g = gen_tt(rng, dims, [1] * order, max_ranks(dims), cplx, 'float')
             solver = rng.choice(['als', 'mals'])          # order 1 with mals is handed to the one-site scheme (F28)
+            if solver == 'mals' and order == 2 and rng.random() < 0.5:
+                # two cores: the two-site scheme solves the whole system, whatever the rank of the guess
+                g = gen_tt(rng, dims, [1] * order, [1, 1, 1], cplx, 'float')
+                desc['guess'] = 'rank 1'
             f = ode.implicit_euler if which == 'implicit' else ode.trapezoidal_rule
             sol = f(A, x0, g, hs, repeats=2, tt_solver=solver, micro_solver=rng.choice(['solve', 'lu']), normalize=normalize, progress=False)
             ref = [xv]
